@@ -11,11 +11,12 @@ import Driver.Fmt
 import Driver.Ledger
 import Driver.Effects
 import Driver.Par
+import Driver.Traits
 
 open Driver
 
 def dispatch (w : World) (ws : List String) : World × String :=
-  match (cmdIndex ws <|> cmdConstruct ws <|> cmdScalar ws <|> cmdFmt ws <|> cmdEffects ws <|> cmdPar ws) with
+  match (cmdIndex ws <|> cmdConstruct ws <|> cmdScalar ws <|> cmdFmt ws <|> cmdEffects ws <|> cmdPar ws <|> cmdTraits ws) with
   | some s => (w, s)
   | none =>
     match stepHist w ws with
